@@ -16,7 +16,7 @@ from rv.readers.reader import read_sunvox_file
 
 PROPERTY = "C05"
 LEVEL = "exploration"
-BUDGET_S = {"quick": 75, "thorough": 1200}
+BUDGET_S = {"quick": 75, "thorough": 3600}
 RULE = (
     "one evaluation = one history on one file: load X, save (Y1), then n in 1..6 cycles Y(k+1) = save(load(Yk)) compared "
     "byte for byte, with purity checks around every save (snapshot before == after, two saves identical), saves aborted "
